@@ -534,11 +534,16 @@ func namedVectorMerge(c *ctx) string {
 		o := genVecOpts(c)
 		o.nVecFs = 0
 		o.dims[name], o.sim[name], o.opt[name] = 3, "l2_norm", "recall"
+		dup := randVec(c, 3) // one vector that occurs, bit for bit, in a document of each input (and twice in the first)
 		mk := func(id string, n int) (*segEnt, sx.V, error) {
 			var b zh.Batch
 			for d := 0; d < n; d++ {
+				data := randVec(c, 3)
+				if d == 2 || (d == 4 && id == "p") {
+					data = append([]float32(nil), dup...)
+				}
 				b = append(b, zh.Doc{Fields: []zh.Field{zh.IDField(fmt.Sprintf("%s%02d", id, d)),
-					{Name: name, Typ: 'v', Vec: &zh.VecDef{Dims: 3, Sim: "l2_norm", Opt: "recall", Data: randVec(c, 3)}}}})
+					{Name: name, Typ: 'v', Vec: &zh.VecDef{Dims: 3, Sim: "l2_norm", Opt: "recall", Data: data}}}})
 			}
 			e, err := newBuilt(c, b, 1026, c.R.Bool())
 			if err != nil {
